@@ -240,7 +240,7 @@ impl Crate {
         let mut v: Vec<String> = self
             .fns
             .iter()
-            .filter(|f| f.tr.is_empty() && f.sig.ident == name && f.ty.is_some())
+            .filter(|f| f.tr.is_empty() && f.sig.ident == name && f.ty.is_some() && f.sig.receiver().is_some())
             .map(|f| f.ty.clone().unwrap())
             .collect();
         v.sort();
